@@ -242,9 +242,13 @@ pub(crate) struct AuxiliaryFiles<'data> {
 }
 
 impl<'data> AuxiliaryFiles<'data> {
+    /// Reads the version script and export list, if any. The files are recorded in `loaded_files`
+    /// so that they're listed in the dependency file and checked for concurrent modification like
+    /// every other file that we read.
     pub(crate) fn new(
         args: &'data impl platform::Args,
         inputs_arena: &'data Arena<InputFile>,
+        loaded_files: &mut Vec<&'data InputFile>,
     ) -> Result<Self> {
         let resolve_script_path = |path: &Path| -> PathBuf {
             if path.exists() {
@@ -259,11 +263,15 @@ impl<'data> AuxiliaryFiles<'data> {
         Ok(Self {
             version_script_data: args
                 .version_script_path()
-                .map(|path| read_script_data(&resolve_script_path(path), inputs_arena))
+                .map(|path| {
+                    read_script_data(&resolve_script_path(path), inputs_arena, loaded_files)
+                })
                 .transpose()?,
             export_list_data: args
                 .export_list_path()
-                .map(|path| read_script_data(&resolve_script_path(path), inputs_arena))
+                .map(|path| {
+                    read_script_data(&resolve_script_path(path), inputs_arena, loaded_files)
+                })
                 .transpose()?,
         })
     }
@@ -514,12 +522,14 @@ fn process_archive<'data, P: Platform>(
 }
 
 fn process_thin_archive<'data, P: Platform>(
-    input_file: &InputFile,
+    input_file: &'data InputFile,
     state: &TemporaryState<'data, P>,
 ) -> Result<LoadedFileState<'data, P>> {
     let absolute_path = &input_file.filename;
     let parent_path = absolute_path.parent().unwrap();
-    let mut files = Vec::new();
+    // The thin archive itself is a file that we read (it's what names the members), so it's listed
+    // along with its members.
+    let mut files = vec![input_file];
     let mut parsed_files = Vec::new();
 
     for entry in ArchiveIterator::from_archive_bytes(input_file.data())? {
@@ -727,15 +737,18 @@ impl<'data, P: Platform> TemporaryState<'data, P> {
 fn read_script_data<'data>(
     path: &Path,
     inputs_arena: &'data Arena<InputFile>,
+    loaded_files: &mut Vec<&'data InputFile>,
 ) -> Result<ScriptData<'data>> {
     let data = FileData::new(path, false).context("Failed to read script")?;
 
-    let file = inputs_arena.alloc(InputFile {
+    let file = &*inputs_arena.alloc(InputFile {
         filename: path.to_owned(),
         original_filename: path.to_owned(),
         modifiers: Default::default(),
         data: Some(data),
     });
+
+    loaded_files.push(file);
 
     Ok(ScriptData { raw: file.data() })
 }
